@@ -25,6 +25,8 @@ type countingBackend struct {
 	mu    sync.Mutex
 	Seen  map[string]int
 	Delay func(tok string) time.Duration
+	// Stream, if set and true for a token, makes the answer a slow flushed stream
+	Stream func(tok string) bool
 }
 
 func startCountingBackend(w *World) *countingBackend {
@@ -48,6 +50,16 @@ func startCountingBackend(w *World) *countingBackend {
 				time.Sleep(d)
 			}
 			rw.Header().Set("X-Echo-Token", tok)
+			if cb.Stream != nil && cb.Stream(tok) {
+				// the same body, produced in flushed pieces with pauses
+				body := "resp:" + tok
+				for i := 0; i < len(body); i++ {
+					rw.Write([]byte{body[i]})
+					rw.(http.Flusher).Flush()
+					time.Sleep(300 * time.Millisecond)
+				}
+				return
+			}
 			rw.Write([]byte("resp:" + tok))
 		}))
 	})
